@@ -25,3 +25,76 @@ def url_string(I, args, ins):
     if p is None:
         raise GoPanic('nil-deref', I.ctx.cur_pos)
     return url_string_of(I, I.ctx.load(p))
+
+
+# ------------------------------------------------------------------ url.Parse (abstract, deterministic in its argument)
+
+SCHEME_CLASSES = ['http', 'https', 'javascript', 'data']
+
+
+def concat_parts(t):
+    if z3.is_app(t) and t.decl().kind() == z3.Z3_OP_SEQ_CONCAT:
+        out = []
+        for c in t.children():
+            out.extend(concat_parts(c))
+        return out
+    return [t]
+
+
+def term_scheme(I, s):
+    """Structural scheme extraction: exact when the text is prefix ++ colon-free rest."""
+    nocolon = I.ctx.ghost.get('nocolon', set())
+    parts = concat_parts(s)
+    acc = ''
+    for p in parts:
+        if z3.is_string_value(p):
+            acc += p.as_string()
+            i = acc.find(':')
+            if i >= 0:
+                head = acc[:i]
+                if i > 0 and head[0].isalpha() and all(ch.isalnum() or ch in '+-.' for ch in head):
+                    return head.lower()
+                return ''
+            if '/' in acc or '?' in acc or '#' in acc:
+                return ''
+        elif str(p) in nocolon:
+            continue
+        else:
+            return None
+    return ''
+
+
+def url_scheme_of(s):
+    """Scheme of a URL text, exact on texts starting with one of the listed schemes or without any colon."""
+    zs = zstr(s)
+    r = z3.StringVal('')
+    for sc in reversed(SCHEME_CLASSES):
+        r = z3.If(z3.PrefixOf(z3.StringVal(sc + ':'), zs), z3.StringVal(sc), r)
+    return r
+
+
+@stub('net/url.Parse')
+def url_parse(I, args, ins):
+    ctx = I.ctx
+    s = args[0]
+    if isinstance(s, str):
+        from urllib.parse import urlsplit
+        bad = any(ord(c) < 0x20 or ord(c) == 0x7f for c in s)
+        if bad:
+            return TupleV((None, ctx.new_error('url', msg='net/url: invalid control character in URL')))
+        sc = ''
+        i = s.find(':')
+        if i > 0 and s[0].isalpha() and all(ch.isalnum() or ch in '+-.' for ch in s[:i]):
+            sc = s[:i].lower()
+        v = ctx.fresh('net/url.URL', 'url')
+        fi = I.prog.field_index('net/url.URL', 'Scheme')
+        v = v.with_field(fi, sc)
+        return TupleV((ctx.alloc(GStructV(v, {'str': s}), 'url'), None))
+    okf = z3.Function('url.ParseOK', z3.StringSort(), z3.BoolSort())
+    if not ctx.branch(okf(s)):
+        return TupleV((None, ctx.new_error('url', msg='parse error')))
+    v = ctx.fresh('net/url.URL', 'url')
+    fi = I.prog.field_index('net/url.URL', 'Scheme')
+    ts = term_scheme(I, s)
+    v = v.with_field(fi, ts if ts is not None else z3.simplify(url_scheme_of(s)))
+    return TupleV((ctx.alloc(GStructV(v, {'str': s}), 'url'), None))
